@@ -864,11 +864,31 @@ func (c *Ctx) checkSavedTimestamp() {
 		for _, site := range core.CallsTo(fn, save) {
 			args := core.CallArgs(site.Common())
 			al, ok := core.Strip(args[1]).(*ssa.Alloc)
+			// a constructor `newMessageRecord(..., postedAt, ...)` returning the literal: its parameters
+			// stand for the arguments of the call
+			var ctorCall *ssa.Call
 			if !ok {
-				continue
+				if call, isCall := core.Strip(args[1]).(*ssa.Call); isCall {
+					if g := call.Call.StaticCallee(); g != nil && core.InModule(g) && len(g.Blocks) > 0 {
+						nret := 0
+						core.AllInstrs(g, func(in ssa.Instruction) {
+							if ret, isRet := in.(*ssa.Return); isRet && len(ret.Results) >= 1 {
+								nret++
+								if a, isA := core.Strip(ret.Results[0]).(*ssa.Alloc); isA {
+									al, ctorCall = a, call
+								}
+							}
+						})
+						ok = nret == 1 && al != nil
+					}
+				}
 			}
 			n++
 			r.Func(fk(fn))
+			if !ok {
+				r.Info(rule, fk(fn)+": saved CreatedAt is the broadcast Timestamp", c.pos(site), "the message handed to Save is neither a literal nor the result of a constructor returning one (not decided)")
+				continue
+			}
 			// CreatedAt of the embedded header: &lit.ObjHeader.CreatedAt = v, or lit.ObjHeader = hdr
 			var created ssa.Value
 			var scan func(base ssa.Value, d int)
@@ -905,6 +925,13 @@ func (c *Ctx) checkSavedTimestamp() {
 				}
 			}
 			scan(al, 0)
+			if p, isP := core.Strip(created).(*ssa.Parameter); isP && created != nil && ctorCall != nil {
+				for j, q := range p.Parent().Params {
+					if q == p && j < len(ctorCall.Call.Args) {
+						created = ctorCall.Call.Args[j]
+					}
+				}
+			}
 			var dataAlloc *ssa.Alloc
 			c.regionInstrs(c.phaseRoot(fn), func(_ *ssa.Function, in ssa.Instruction) {
 				if a, ok := in.(*ssa.Alloc); ok && isPtrToNamed(a.Type(), "MsgServerData") {
@@ -1747,12 +1774,38 @@ func (c *Ctx) checkAcceptRecordedAfterPublished() {
 	if partiesF == nil || acceptedF == nil || save == nil {
 		return
 	}
+	// publishers: saveAndBroadcastMessage and the helpers that wrap it (return its error)
+	pub := map[*ssa.Function]bool{}
+	if f := c.P.SSAFunc(save); f != nil {
+		pub[f] = true
+	}
+	for i := 0; i < 2; i++ {
+		for _, g := range c.P.ModFuncs {
+			if !core.InPkg(g, "server") || pub[g] || g.Signature.Results().Len() == 0 || errIndex(g.Signature) < 0 {
+				continue
+			}
+			core.AllInstrs(g, func(in ssa.Instruction) {
+				if ci, ok := in.(ssa.CallInstruction); ok {
+					if cal := ci.Common().StaticCallee(); cal != nil && pub[cal] {
+						pub[g] = true
+					}
+				}
+			})
+		}
+	}
 	n := 0
 	for _, fn := range c.P.ModFuncs {
-		if !core.InPkg(fn, "server") {
+		if !core.InPkg(fn, "server") || pub[fn] {
 			continue
 		}
-		saves := core.CallsTo(fn, save)
+		var saves []ssa.CallInstruction
+		core.AllInstrs(fn, func(in ssa.Instruction) {
+			if ci, ok := in.(*ssa.Call); ok {
+				if cal := ci.Call.StaticCallee(); cal != nil && pub[cal] {
+					saves = append(saves, ci)
+				}
+			}
+		})
 		if len(saves) == 0 {
 			continue
 		}
